@@ -15,7 +15,7 @@ for sd in sorted(os.listdir(os.path.join(V, 'seeded'))):
         if x.get('exit') == 1 and x.get('violations'):
             v = x['violations'][0]
             ob = v.split('obligation="')[-1].split('"')[0][:110]
-            caught.append('%s: %s%s' % (p, ob, ' (replayed input)' if 'no-failing-input-found' not in v else ''))
+            caught.append('%s%s: %s%s' % (p, ' [thorough tier]' if x.get('tier') == 'thorough' else '', ob, ' (replayed input)' if 'no-failing-input-found' not in v else ''))
         elif x.get('exit') == 2:
             caught.append('%s: inconclusive' % p)
     note = ' '.join(m.get('note', '').split())[:200]
